@@ -36,6 +36,7 @@ TABLE = {
             {"driver": "slot-wrap", "required_clauses": ["slot-wrap"], "shards": 1, "replayable": False},
             {"driver": "composite", "required_clauses": ["scripted-callback", "post-action"]},
             {"driver": "lifecycle", "required_clauses": ["scripted-callback"]},
+            {"driver": "timers", "required_clauses": ["timer-fire", "callback-legitimacy"]},
         ],
     },
     "C02": {
@@ -73,6 +74,7 @@ TABLE = {
             {"driver": "removal", "required_clauses": ["release", "stale-token", "callback-legitimacy", "epoll-table"]},
             {"driver": "reuse", "required_clauses": ["release", "stale-token"]},
             {"driver": "slot-wrap", "required_clauses": ["slot-wrap"], "shards": 1, "replayable": False},
+            {"driver": "exec-seq", "required_clauses": ["executor-destroyed"]},
         ],
     },
     "C07": {
@@ -81,6 +83,7 @@ TABLE = {
             {"driver": "disable", "required_clauses": ["callback-legitimacy", "dispatch-owed", "timer-fire", "oneshot"]},
             {"driver": "batch", "required_clauses": ["callback-legitimacy", "dispatch-owed"]},
             {"driver": "pairs", "required_clauses": ["callback-legitimacy", "dispatch-owed", "timer-fire"]},
+            {"driver": "epoll", "required_clauses": ["epoll-table"]},
         ],
     },
     "C03": {
